@@ -276,6 +276,13 @@ func (l authLevels) observe(s *sim.Sim, st *sim.Step) {
 			l[b] = "half"
 		}
 	}
+	// the validate pages also serve users who are logged in already: a remembered (half-authenticated)
+	// user who proves the account's second factor there is taken to full authentication by the library
+	// — by design ("Look up CurrentUser first…"), and with a credential of that account
+	if k := st.Act.Kind; (k == "totp_validate" || k == "sms_validate") && rec.SessIn["uid"] == uid && rec.SessOut["halfauth"] == "" &&
+		sim.SessPutAny(rec, "twofactor", strings.SplitN(k, "_", 2)[0]) && secondFactorProven(s, st, uid, k) != "" {
+		l[b] = "full"
+	}
 }
 
 func (m c07mon) Sig(s *sim.Sim, st *sim.Step) string {
